@@ -173,7 +173,15 @@ package netconf
 //@ func (*Driver).storeSubscriptionMessage [C08]
 //@   requires d.subscriptions != nil
 //@   modifies keys(d.subscriptions), alloc()
+// wholeFrame11(b): b is exactly one complete NETCONF 1.1 message - chunks, each as long as its header says, then the end-of-
+// chunks marker. The reader does not parse chunks: it takes the buffer for complete as soon as it matches (?m)^##$, and `$`
+// also matches at the end of what has been read so far - so a payload line that merely begins with "##" ends the message
+// when a read stops right behind it (findings/f11_payload_line_of_hashes_test.go; with the file transport's one-byte reads
+// always). The clause below says what C02 / C08 need; nothing connects it to the pattern match, it FAILS, and is recorded as
+// open finding F11.
+//@ spec wholeFrame11(b []byte) bool
 //@ func (*Driver).read [C08]
+//@   at call! storeMessage#1 assert [C02] #what-is-filed-as-a-reply-is-one-whole-chunked-message d.SelectedVersion == "1.1" ==> wholeFrame11(arg1)
 //@   maintains RI(d.Channel.Q)
 //@   requires d.messages != nil && d.subscriptions != nil
 //@   requires d.errs != d.Channel.Q.depthChan && d.done != d.Channel.Q.depthChan
